@@ -1225,6 +1225,22 @@ fn witness_if_feasible(m: &SrcModel) -> Option<Vec<Q>> {
             return None;
         }
     }
+    // ... and under the f64 reading of the same text too: `b <= 1.9 + -0.9` admits b = 1 in
+    // decimal arithmetic, while in f64 the right-hand side is 0.9999999999999999. A point
+    // that is feasible under one reading only sits inside a tolerance and decides nothing
+    // about the compiled rows (DESIGN.md section 9).
+    let wf: Vec<f64> = w.iter().map(|q| q.to_f64()).collect();
+    for c in &m.cons {
+        let d = c.lhs.eval(&wf) - c.rhs.eval(&wf);
+        let ok = match c.cmp {
+            Cmp::Le => d <= 0.0,
+            Cmp::Ge => d >= 0.0,
+            Cmp::Eq => d == 0.0,
+        };
+        if !ok {
+            return None;
+        }
+    }
     Some(w)
 }
 
